@@ -533,6 +533,25 @@ fn self_check() -> Vec<String> {
     bad
 }
 
+/// Scale cases (counts and string lengths beyond 8 and 16 bits).
+fn scale_values() -> Vec<(String, Val)> {
+    let long: String = "長い名前_".chars().cycle().take(300).collect();
+    let mut out = Vec::new();
+    for n in [255usize, 256, 257, 8_000] {
+        let mut sets = Vec::new();
+        for i in 0..n {
+            let mut set: Vec<Option<String>> = vec![None; 257];
+            if i % 2 == 0 {
+                set[0] = Some(format!("SetLabel{:05}", i));
+            }
+            set[1 + (i % 256)] = Some(if i % 7 == 0 { long.clone() } else { format!("anim{}", i) });
+            sets.push(set);
+        }
+        out.push((format!("{} sets", n), Val { meta: Some(long.clone()), clip: (0..257).map(|i| if i % 2 == 0 { Some(format!("{}{}", long, i)) } else { None }).collect(), sets }));
+    }
+    out
+}
+
 fn explore(ctx: &Ctx) -> Outcome {
     let thorough = ctx.tier == vcore::Tier::Thorough;
     let problems = self_check();
@@ -546,6 +565,14 @@ fn explore(ctx: &Ctx) -> Outcome {
         })
         .reduce(Tally::new, Tally::merge);
     let mut total = total;
+    for (name, v) in scale_values() {
+        total.cases += 1;
+        total.nontrivial += 1;
+        total.class("family:scale");
+        if let Some((sig, summary)) = judge(&v, &mut total) {
+            total.violate(format!("scale:{}", sig), format!("[{}] {}", name, summary.chars().take(400).collect::<String>()), json!({"scale": name}));
+        }
+    }
     // samples: generator coordinates of three representative cases
     total.sample(serde_json::to_value(Case { fam: "lists".into(), meta: 3, clip: 2, sets: vec![shape(1), shape(4), shape(0)] }).unwrap());
     total.sample(serde_json::to_value(Case { fam: "slots-le2-absent".into(), meta: 1, clip: 6, sets: embed(SetDesc { label: None, pat: Pat::Absent(vec![32, 33]), scheme: 1 }, 1) }).unwrap());
@@ -587,6 +614,18 @@ fn explore(ctx: &Ctx) -> Outcome {
 }
 
 fn replay(_ctx: &Ctx, case: &Value) -> Vec<Violation> {
+    if let Some(name) = case["scale"].as_str() {
+        let mut out = Vec::new();
+        for (n, v) in scale_values() {
+            if n == name {
+                let mut t = Tally::new();
+                if let Some((sig, summary)) = judge(&v, &mut t) {
+                    out.push(Violation { sig: format!("scale:{}", sig), summary: summary.chars().take(400).collect(), case: case.clone() });
+                }
+            }
+        }
+        return out;
+    }
     let c: Case = match serde_json::from_value(case.clone()) {
         Ok(c) => c,
         Err(_) => return vec![],
